@@ -50,6 +50,7 @@ func runC19(c *Ctx) {
 	c.c19Stop()
 	c.c19Stream()
 	c.c19StreamStops()
+	c.c19GraceReadEveryRound()
 	c.c19StreamCurrentPage()
 	c.c19StreamGetNext()
 	c.c19GraceFromDryUp()
@@ -1368,4 +1369,147 @@ func (c *Ctx) c19NoRewind() {
 		})
 	}
 	c.Extra["pages_installed"] = n
+}
+
+// c19GraceReadEveryRound (E17): "keeps yielding items of future pages until it has been told the stream is drying up and the
+// grace period has elapsed". The loop of the stream paginator's HasNext runs for as long as the stream is alive and records
+// the instant of its last progress as it goes (and DryUp records the instant the stream was marked). The instant the grace
+// period is counted from is therefore read in the round that compares it: an instant read before the loop is the one of the
+// call's beginning — after a wait longer than the grace period the stream ends the moment it is marked, or while pages are
+// still arriving.
+func (c *Ctx) c19GraceReadEveryRound() {
+	c.rule("E17", "the instant the grace period is counted from is read (timeReachLast.Load()) in the round of the polling loop that compares it with the grace period, not once before the loop", 1)
+	f := c.fn(pagPkg, "(*AbstractStreamPaginator).HasNext")
+	if f == nil {
+		return
+	}
+	c.FuncsSeen[fname(f)] = true
+	key := fname(f) + "/grace-instant-read-in-the-round"
+	fieldOf := func(v ssa.Value) string {
+		u, ok := v.(*ssa.UnOp)
+		if !ok {
+			return ""
+		}
+		fa, ok := u.X.(*ssa.FieldAddr)
+		if !ok {
+			return ""
+		}
+		if so := structOf(fa.X.Type()); so != nil {
+			return so.Field(fa.Field).Name()
+		}
+		return ""
+	}
+	// the operands a value is computed from, through calls, conversions and arithmetic (not through memory)
+	var leaves func(v ssa.Value, seen map[ssa.Value]bool, visit func(ssa.Value))
+	leaves = func(v ssa.Value, seen map[ssa.Value]bool, visit func(ssa.Value)) {
+		if v == nil || seen[v] {
+			return
+		}
+		seen[v] = true
+		visit(v)
+		in, ok := v.(ssa.Instruction)
+		if !ok {
+			return
+		}
+		if _, isPhi := v.(*ssa.Phi); !isPhi {
+			if u, isU := v.(*ssa.UnOp); isU && u.Op == token.MUL {
+				return
+			}
+		}
+		var ops []*ssa.Value
+		for _, o := range in.Operands(ops) {
+			if o != nil && *o != nil {
+				leaves(*o, seen, visit)
+			}
+		}
+	}
+	isGraceLoad := func(cl *ssa.Call) bool {
+		return strings.HasSuffix(calleeFull(&cl.Call), "atomic.Time).Load") && len(cl.Call.Args) > 0 && fieldOf(cl.Call.Args[0]) == "timeReachLast"
+	}
+	type cmp struct {
+		at    *ssa.BinOp
+		loads []*ssa.Call
+	}
+	var found []cmp
+	var scan func(g *ssa.Function, inRound bool, depth int)
+	seenFn := map[*ssa.Function]bool{}
+	scan = func(g *ssa.Function, inRound bool, depth int) {
+		if g == nil || g.Blocks == nil || seenFn[g] || depth > 2 {
+			return
+		}
+		seenFn[g] = true
+		allInstrs(g, func(in ssa.Instruction) {
+			if cl, ok := in.(*ssa.Call); ok {
+				if h := staticCallee(&cl.Call); h != nil && inPkg(pagPkg)(h) && strings.Contains(fname(h), "AbstractStreamPaginator") && h != f {
+					scan(h, inRound || (g == f && inLoop(cl)), depth+1)
+				}
+				return
+			}
+			bo, ok := in.(*ssa.BinOp)
+			if !ok {
+				return
+			}
+			switch bo.Op {
+			case token.GEQ, token.GTR, token.LEQ, token.LSS:
+			default:
+				return
+			}
+			side := func(v ssa.Value) (isLimit bool, loads []*ssa.Call) {
+				leaves(v, map[ssa.Value]bool{}, func(x ssa.Value) {
+					if fieldOf(x) == "timeOut" {
+						isLimit = true
+					}
+					cl, ok := x.(*ssa.Call)
+					if !ok {
+						return
+					}
+					if isGraceLoad(cl) {
+						loads = append(loads, cl)
+						return
+					}
+					// a helper of the package that returns the instant (or the time since)
+					if h := staticCallee(&cl.Call); h != nil && inPkg(pagPkg)(h) && h.Blocks != nil {
+						allInstrs(h, func(j ssa.Instruction) {
+							r, isRet := j.(*ssa.Return)
+							if !isRet {
+								return
+							}
+							for _, res := range r.Results {
+								leaves(res, map[ssa.Value]bool{}, func(y ssa.Value) {
+									if l2, ok := y.(*ssa.Call); ok && isGraceLoad(l2) {
+										loads = append(loads, cl)
+									}
+								})
+							}
+						})
+					}
+				})
+				return
+			}
+			lx, loadsX := side(bo.X)
+			ly, loadsY := side(bo.Y)
+			switch {
+			case lx && len(loadsY) > 0:
+				found = append(found, cmp{bo, loadsY})
+			case ly && len(loadsX) > 0:
+				found = append(found, cmp{bo, loadsX})
+			}
+			_ = inRound
+		})
+	}
+	scan(f, false, 0)
+	if len(found) == 0 {
+		c.violate("E17", key, c.pos(f.Pos()), "HasNext (and what it calls) no longer compares the time since the recorded instant (timeReachLast) with the grace period (timeOut): a stream marked as running dry ends at once, or never")
+		return
+	}
+	for _, cm := range found {
+		for _, ld := range cm.loads {
+			g := ld.Parent()
+			if g == f && !inLoop(ld) {
+				c.violate("E17", key, c.ipos(ld), "the instant compared with the grace period at "+c.ipos(cm.at)+" is read once, before the polling loop: what the loop records as it goes (progress, and DryUp's own stamp) is never seen — a consumer that waits in HasNext for longer than the grace period sees the stream end the moment it is marked as running dry, with pages still to come")
+				return
+			}
+		}
+	}
+	c.ok("E17", key, c.ipos(found[0].at), "the instant compared with the grace period is read in the round that compares it")
 }
